@@ -175,6 +175,23 @@ int main(int argc, char** argv) {
             out.count("extreme_vectors");
         }
     }
+    // near-ties: keys that differ by 1..16 ulps (clusters, chains of neighbours, conjugate-like pairs whose moduli differ in the
+    // last bits): the order is by the exact key comparison, a difference of one ulp is a difference
+    {
+        int nnear = a.thorough() ? 3000 : 400;
+        for (int t = 0; t < nnear; t++) {
+            int len = rng.range(2, 12);
+            double base = rng.coin(0.2) ? 1.0 : std::ldexp(1.0 + rng.sym(), rng.range(-30, 30));
+            std::vector<double> v(len);
+            for (int i = 0; i < len; i++) { uint64_t u = dbits(base); int d = rng.coin(0.25) ? 0 : rng.range(1, 16); u = rng.coin() ? u + (uint64_t) d : u - (uint64_t) d; v[i] = bitsd(u) * (rng.coin(0.3) ? -1 : 1); }
+            if (rng.coin(0.3)) for (int i = 1; i < len; i++) v[i] = std::nextafter(v[i - 1], rng.coin() ? 1e308 : -1e308);   // chain of neighbours
+            for (int r = 0; r < 9; r++) do_real(r, v, out, false);
+            std::vector<CD> cv(len);
+            for (int i = 0; i < len; i++) { double re = v[i], im = rng.coin(0.4) ? 0.0 : bitsd(dbits(std::fabs(base)) + (uint64_t) rng.range(0, 8)) * (rng.coin() ? 1 : -1); cv[i] = CD(re, im); }
+            for (int r = 0; r < 9; r++) do_cplx(r, cv, out);
+            out.count("near_tie_vectors");
+        }
+    }
     solver_rules(out);
     out.finish();
     return 0;
